@@ -552,8 +552,10 @@ impl<'a> LuaLexer<'a> {
             match self.reader.current_char() {
                 'z' => {
                     self.reader.bump();
-                    self.reader
-                        .eat_while(|c| c == ' ' || c == '\t' || c == '\r' || c == '\n');
+                    // "\z" skips the following span of white-space characters (isspace), incl. line breaks
+                    self.reader.eat_while(|c| {
+                        matches!(c, ' ' | '\t' | '\r' | '\n' | '\x0B' | '\x0C')
+                    });
                 }
                 '\r' | '\n' => {
                     self.lex_new_line();
